@@ -56,7 +56,7 @@ class C07:
                        "os.listdir (seeded permutation of the real listing of the run's temp dir)",
                        "JSSP instance files are written by the harness in the format jssp.parser documents "
                        "(rl4co ships no JSSP writer)"]
-    assumptions = ["CPU float32 kernels; processing times are integers, so clock arithmetic is exact",
+    assumptions = ["CPU float32 kernels; processing times are integers (15% of the FJSP/JSSP runs: multiples of 1/4 or 1/2), so clock arithmetic is exact",
                    "instances come from the library's generators at small sizes (2-4 jobs x 2-3 machines, 8% at "
                    "5-10 jobs); FFSP multi-start replica p is expected to visit the machines of a stage in the order of the "
                    "p-th lexicographic permutation (IndexTables.machine_table)",
@@ -97,6 +97,16 @@ class C07:
         if name == "smtwtp" and rc.random() < 0.4:
             rows, source = E.hand_format(name, rows, rc)
         strategies = [rc.choice(STRATEGIES) for _ in range(B)]
+        rf = st.get("fractional")
+        will_file = None
+        if name in JOBSHOP and rf.random() < 0.15:
+            # processing times on a quarter / half unit grid (`proc_times` is a float field; the text files hold
+            # integers, so these instances never take the file path): dyadic values keep the clock arithmetic
+            # exact, and "finished by now" can no longer be confused with "finishes within one unit from now"
+            f = rf.choice([0.25, 0.5])
+            for r in rows:
+                r["proc_times"] = r["proc_times"] * f
+            source, will_file = f"hand:fractional_x{f}", False
         plan = {"cfg": cfg, "instances": [E.enc_row(r) for r in rows], "strategies": strategies,
                 "source": source, "perturb": [],
                 # one run in five leaves the tick oracle off so that a state the dispatcher would stop at
@@ -108,7 +118,7 @@ class C07:
             k = rc.randint(2, min(math.factorial(cfg["gen"]["num_machine"]), max(2, 12 // B)))
             plan["multistart"] = k
             plan["strategies"] = [rc.choice(STRATEGIES) for _ in range(B * k)]
-        if name in JOBSHOP and rc.random() < 0.25:
+        if name in JOBSHOP and rc.random() < 0.25 and will_file is None:
             plan["source"] = "file"
             plan["listdir_seed"] = rc.randrange(1 << 30) if rc.random() < 0.6 else None
         if rc.random() < 0.6:
